@@ -55,6 +55,13 @@ def mergeSettled (mine other : Option Bool) : Option Bool :=
   | some v, none => some v
   | none, o => o
 
+/-- source fact: a continuation frame's fields are checked against the delivery in progress (`or_assign`,
+    whose `?` leaves on a contradiction) before its payload is appended -/
+def checkedBeforeKept : Bool :=
+  open Amqp.Gen.ReasmK.on_incomplete_transfer_order in
+  decide (idx_incomplete___or_assign___transfer____ < idx_incomplete___append___payload__) &&
+  decide (idx_incomplete___append___payload__ < 1000)
+
 /-- `IncompleteTransfer::or_assign` + `append` -/
 def merge (i : Inc) (f : Frame) : Option Inc := do
   let id ← orAssign i.id f.id
@@ -83,7 +90,9 @@ def step (st : Option Inc) (f : Frame) : Option Inc × Out :=
     match st with
     | some i => match merge i f with
       | some i' => (some i', .nothing)
-      | none => (some i, .inconsistent)       -- `?` leaves the incomplete transfer in place
+      | none =>
+        -- `?` leaves the incomplete transfer in place; had the payload been appended first it would stay in it
+        (some (if checkedBeforeKept then i else { i with buf := i.buf ++ [f.payload] }), .inconsistent)
     | none => (some { id := f.id, tag := f.tag, fmt := f.fmt, settled := f.settled, buf := [f.payload] },
                .nothing)
   else if f.aborted then (none, .nothing)     -- reached only if the abort flag were looked at after `more`
